@@ -515,7 +515,7 @@ def inv(a):
         return _np.linalg.inv(a)
     n = a.shape[0]
     c = T.ctx()
-    if n <= 3:
+    if n <= 4:
         d = det(a)
         adj = zeros((n, n))
         for i in range(n):
@@ -558,7 +558,20 @@ def solve(a, b):
     return S(_np.dot(inv(a), b))
 
 
+def lstsq(a, b, rcond=None):
+    a, b = asarray(a), asarray(b)
+    if a.dtype != object and b.dtype != object:
+        return _np.linalg.lstsq(a, b, rcond=rcond)
+    if a.ndim != 2 or a.shape[0] != a.shape[1]:
+        raise EngineError("np.linalg.lstsq is modelled only for square (invertible) systems")
+    c = T.ctx()
+    if c is not None:
+        c.note_assumption('numpy.linalg.lstsq(A, B) on a square invertible A returns the exact solution inv(A) B')
+    return (S(_np.dot(inv(a), b)), None, a.shape[0], None)
+
+
 class _Linalg:
+    lstsq = staticmethod(lstsq)
     norm = staticmethod(norm)
     det = staticmethod(det)
     inv = staticmethod(inv)
